@@ -50,6 +50,14 @@ def run(ck):
     # a very regular circuit: the description inflates at several hundred to one (deflate legitimately reaches ~1000:1)
     S.cmd("pp", "ppbig", (1 << 14) + 6, 3)
     add("16000 identical rows (deflate ratio about 300:1)", ["w 2", "w 3"] + ["gate 1 0 0 0 0 6 - $0 $1 0 0".replace(" 6 ", " " + hx(R - 6) + " ")] * 16000, pp="ppbig")
+    # selector-rich rows: two fixed-base multiplications over distinct generators carry about 1500 distinct selector
+    # values on 666 rows (more dictionary scalars than constraints); capacities around the threshold
+    from .. import jubjub as J_
+    ex_ = lambda P_: " ".join(hx(v_) for v_ in J_.ext(P_, 1))
+    rich = ["w 5", f"mulgen $0 {ex_(J_.GEN)}", "w 9", f"mulgen $3 {ex_(J_.GEN_NUMS)}"]
+    for deg in ([1023, 1024, 2048] if quick else [600, 1017, 1018, 1023, 1024, 1025, 2047, 2048]):
+        ppn = f"q666_{deg}"; S.cmd("pp", ppn, deg, 3)
+        add(f"capacity deg={deg}, two fixed-base multiplications (selector-rich)", rich, pp=ppn, expect=(deg >= 1024))
     # capacities from too small to ample
     for c in ([4, 10, 11, 26, 27] if quick else [4, 5, 9, 10, 11, 25, 26, 27, 57, 58, 59, 122, 123]):
         nd = npo2(c + 6)
